@@ -17,7 +17,7 @@ from sa.model import Repo
 from sa.norm import T
 from sa.report import Check
 
-from .common import kwarg, callee_name, depends_on, flow_of, has_fact, subexprs
+from .common import expand_with_loops, kwarg, callee_name, depends_on, flow_of, has_fact, subexprs
 
 STRIDE = "snaxc/ir/tsl/stride.py"
 TSTRIDE = "snaxc/ir/tsl/tiled_stride.py"
@@ -197,9 +197,19 @@ def affine_map(repo: Repo, chk: Check) -> None:
         loops = [l for l in s.loops if isinstance(l, ast.For)]
         if len(loops) < 2:
             raise AnalysisError(f"{s.where()}: term is not inside the (dim, depth) loop nest")
-        dim_v = loops[0].target.id if isinstance(loops[0].target, ast.Name) else None
-        dep_v = loops[1].target.id if isinstance(loops[1].target, ast.Name) else None
-        v = s.expand(s.node.value)
+        def index_var(lp: ast.For) -> str | None:
+            # `for d in range(..)` or `for d, x in enumerate(..)`
+            if isinstance(lp.target, ast.Name):
+                return lp.target.id
+            if isinstance(lp.target, ast.Tuple) and len(lp.target.elts) == 2 and isinstance(lp.target.elts[0], ast.Name) and isinstance(lp.iter, ast.Call) \
+                    and callee_name(lp.iter) == "enumerate":
+                return lp.target.elts[0].id
+            return None
+
+        dim_v, dep_v = index_var(loops[0]), index_var(loops[1])
+        if dim_v is None or dep_v is None:
+            raise AnalysisError(f"{s.where()}: the (dim, depth) loop variables were not recognised")
+        v = expand_with_loops(s, s.node.value)
         b = {"d": dim_v, "k": dep_v}
         m = norm.any_match(["$st * (AffineDimExpr($d) % $mod // $fd)", "AffineDimExpr($d) % $mod // $fd * $st"], v, {"d": dim_v})
         m0 = norm.any_match(["$st * (AffineDimExpr($d) // $fd)", "AffineDimExpr($d) // $fd * $st"], v, {"d": dim_v})
@@ -238,8 +248,10 @@ def affine_map(repo: Repo, chk: Check) -> None:
         chk.result(ok_s, "C10.affine-digits", key + ":step", s.where(), "the digit is scaled by the step of the same (dim, depth)",
                    f"the digit of (dim, depth) is scaled by {ast.unparse(st)[:80]}")
         it0 = s.expand(loops[0].iter) if False else loops[0].iter
-        ok_l = norm.match(T("range(self.data.dimension())"), loops[0].iter) is not None and depends_on(
-            fl.cone(loops[1].iter, s, inline=0), "self.data.tstrides[$d].depth()", binds={"d": dim_v})
+        it_dim, it_dep = s.expand(loops[0].iter), expand_with_loops(s, loops[1].iter)
+        ok_l = norm.any_match(["range(self.data.dimension())", "enumerate(self.data.tstrides)", "range(len(self.data.tstrides))"], it_dim) is not None and (
+            depends_on(fl.cone(loops[1].iter, s, inline=0), "self.data.tstrides[$d].depth()", binds={"d": dim_v})
+            or norm.any_match(["enumerate(self.data.tstrides[$d].strides)", "range(len(self.data.tstrides[$d].strides))"], it_dep, {"d": dim_v}) is not None)
         chk.result(ok_l, "C10.affine-digits", key + ":all-levels", s.where(), "terms are added for every dimension and every tile level")
     if not seen_mod:
         chk.bad("C10.affine-digits", f"{f.key}:mod-term", f.where, "no term with a modulus: inner digits are not reduced")
@@ -264,10 +276,19 @@ def from_stride(repo: Repo, chk: Check) -> None:
                                       "[$b * $s[0] if $s[0] and $b else None, *$s]",
                                       "[$b * $s[0] if $b is not None and $s[0] is not None else None, *$s]"], v, {"b": lv}) is not None:
                 ok_step = True
+    for s in fl.calls("insert"):
+        # the same step prepended in place: `steps.insert(0, bound * steps[0] if bound and steps[0] else None)`
+        c_ = s.node
+        lv = s.loops[-1].target.id if s.loops and isinstance(s.loops[-1], ast.For) and isinstance(s.loops[-1].target, ast.Name) else None
+        if lv and len(c_.args) == 2 and isinstance(c_.args[0], ast.Constant) and c_.args[0].value == 0 and isinstance(c_.func, ast.Attribute):
+            lst_ = ast.unparse(c_.func.value)
+            if norm.any_match(["$b * $s[0] if $b and $s[0] else None", "$s[0] * $b if $b and $s[0] else None", "$b * $s[0] if $s[0] and $b else None",
+                               "$b * $s[0] if $b is not None and $s[0] is not None else None"], s.expand(c_.args[1]), {"b": lv, "s": lst_}) is not None:
+                ok_step = True
     chk.result(ok_step, "C10.from-stride", f"{f.key}:chain", f.where, "new outer step = bound * (current outermost step), None if either is dynamic",
                "the step chain of from_stride changed: expected `[bound * steps[0] if bound and steps[0] else None, *steps]`")
     ok_ret = False
-    init_ok = any(norm.match(T("[$s]"), s.node.value, {"s": simple}) is not None for s in fl.stmts(ast.Assign) if not s.loops)
+    init_ok = any(s.node.value is not None and norm.match(T("[$s]"), s.node.value, {"s": simple}) is not None for s in fl.stmts(ast.Assign, ast.AnnAssign) if not s.loops)
     for s in fl.stmts(ast.Return):
         v = s.node.value
         if subexprs(v, "TiledStride([Stride($a, $b) for $a, $b in zip($st, $tb)])", {"tb": bounds}):
@@ -325,7 +346,7 @@ def canonicalize(repo: Repo, chk: Check, rule: str = "C10.canon") -> None:
             isinstance(parent.get(id(c.node)), ast.If) and c.line < s.line for c in conts if c is not s)
         chk.result(ok, rule, f"{f.key}:drop@{n}", s.where(), "a level is dropped only if its bound is 1 and it is not the innermost",
                    "a level is skipped under a condition other than `bound == 1 and not innermost`", s.fact_texts)
-    ins = [s for s in fl.calls("insert") if s.reachable]
+    ins = [s for s in fl.calls("insert", "append") if s.reachable]  # collected outermost-first (insert(0, ..)) or innermost-first (append)
     first_keep = [s for s in ins if has_fact(s, ["len($x) == 0", "not $x"])]
     chk.result(bool(first_keep), rule, f"{f.key}:innermost-inserted", first_keep[0].where() if first_keep else f.where,
                "the innermost level is inserted unconditionally (before any merge/drop test)",
